@@ -124,7 +124,8 @@ func lifeFamily(id, tier string, p map[string]bool, tweak func(kind string, o *L
 	// d: start from a state with recorded collateral debt (renewed shard migrated to a provider without funds)
 	dd := r1Life(id, tier, p)
 	dd.ID = id + "-life-debt"
-	dd.Roots = []string{"R5"}
+	dd.Roots = []string{"R5", "R6"}
+	dd.RenewDur = []uint64{7200, 3600}
 	dd.Depth = 4
 	if tier == "thorough" {
 		dd.Depth = 6
@@ -281,6 +282,7 @@ func init() {
 				// between the halved and the full block reward: the schedule bound changes inside the explored depth
 				// starts four coins short of the 400e12 cap: minting must stop at the cap, the counter must stay exact
 				RewardScenario(RewardOpts{ID: "C08-near-cap", Cfg: world.Config{BlockReward: 3, Baseline: 1, HalvingPeriod: 11, AdjustmentPeriod: 11, GenesisReward: 400_000_000_000_000 - 4}, Depth: d}),
+				RewardScenario(RewardOpts{ID: "C08-with-debt", Cfg: world.Config{BlockReward: 8, Baseline: 1, HalvingPeriod: 2000, AdjustmentPeriod: 11}, Depth: d - 1, Debt: true}),
 				RewardScenario(RewardOpts{ID: "C08-across-halving", Cfg: world.Config{BlockReward: 3, Baseline: 1_000_000_000_000_000, APY: "1", HalvingPeriod: 11, AdjustmentPeriod: 11, GenesisReward: 200_000_000_000_000 - 4}, Depth: d}),
 			}
 		}})
